@@ -45,6 +45,7 @@ var (
 	cBeyond     = simrt.RegisterCounter("probe_device_channel_beyond_plan")
 	cConverged  = simrt.RegisterCounter("probe_converged_after_faults")
 	cNotJudged  = simrt.RegisterCounter("probe_functional_mismatch_not_judged")
+	cDupIdx     = simrt.RegisterCounter("probe_device_list_with_duplicate_index")
 
 	fDownLost  = simrt.RegisterCounter("fault_downlink_lost")
 	fAnsLost   = simrt.RegisterCounter("fault_answer_lost")
@@ -321,8 +322,13 @@ func randomSet(r *sim.Rand, max int, m *spec.Plan) []int {
 				}
 			}
 		}
-	case 1: // exactly the network's enabled set
-		return append([]int(nil), m.EnabledIdx()...)
+	case 1: // exactly the network's enabled set (sometimes with one channel replaced by a duplicate of another)
+		out = append([]int(nil), m.EnabledIdx()...)
+		if len(out) > 1 && r.Intn(3) == 0 {
+			out[r.Intn(len(out))] = out[r.Intn(len(out))]
+			simrt.Count(cDupIdx)
+		}
+		return out
 	case 2: // empty
 	default:
 		p := 1 + r.Intn(4)
@@ -331,6 +337,14 @@ func randomSet(r *sim.Rand, max int, m *spec.Plan) []int {
 				out = append(out, i)
 			}
 		}
+	}
+	// a device list may name a channel twice
+	if len(out) > 0 && r.Intn(5) == 0 {
+		k := 1 + r.Intn(2)
+		for ; k > 0; k-- {
+			out = append(out, out[r.Intn(len(out))])
+		}
+		simrt.Count(cDupIdx)
 	}
 	// a device reports its channels in any order
 	if r.Intn(3) == 0 {
